@@ -12,7 +12,9 @@
 (* AbsoluteRaw; "near" = the single-token edits of well-formed strings,     *)
 (* "sweep" = every token of the alphabet at every position of a few),        *)
 (* "par" parameter string (NewQueryParameters), "res" resolution against a  *)
-(* backend, "rnd" payload rendering.                                        *)
+(* backend ("fld" = entry keys with a folder part over stores in which the   *)
+(* folder / leaf names occur as plain entries, folders, beside, inside),      *)
+(* "rnd" payload rendering.                                                 *)
 (***************************************************************************)
 EXTENDS ConfigQuery, Json
 
@@ -25,6 +27,7 @@ CONSTANTS
   PAlphabet, PMaxLen,               \* "par": every token string over PAlphabet up to PMaxLen
   PMaxPairs,                        \* "par": k=v&k=v... from the catalogues PKeys, PVals
   ResRT, ResRoles, ResQRT, ResQRoles, ResEntries,     \* "res": backend universe and queries
+  FldShapes, FldQueries,            \* "fld": entry key with a folder part; shapes a level may have, queries (level ids)
   ResBackends,                      \* "res": on which backing stores ("file", "consul"); the answers do not depend on it
   RndMaxParts                       \* "rnd": length of the entry content in parts
 
@@ -80,6 +83,10 @@ ParCases == {[k |-> "par", s |-> s] : s \in Seqs(PAlphabet, 0, PMaxLen) \cup Par
 ResCases == {[k |-> "res", q |-> [comp |-> "c", rt |-> rt, role |-> ro, entry |-> e], B |-> B, be |-> b] :
                rt \in ResQRT, ro \in ResQRoles, e \in ResEntries, B \in SUBSET (ResRT \X ResRoles), b \in ResBackends}
 
+(* --- "fld": the query c/RT/role/x/y over stores whose four candidate levels each have one of the shapes --- *)
+FldCases == {[k |-> "fld", q |-> FldQ(qk), L |-> L, be |-> b] :
+               qk \in FldQueries, L \in [FldLevels -> FldShapes], b \in ResBackends}
+
 (* --- "rnd" --- *)
 Lit(x) == [k |-> "lit", x |-> x]
 Var(x) == [k |-> "var", x |-> x]
@@ -93,7 +100,7 @@ RndCases ==
      p \in Seqs(RndAtoms, 1, RndMaxParts), sb \in ({<<FALSE, <<>> >>} \cup {<<TRUE, x>> : x \in RndSibs}), vs \in RndVars}
 
 AllCases == (IF "str" \in Kinds THEN StrCases ELSE {}) \cup (IF "near" \in Kinds THEN NearCases ELSE {}) \cup (IF "sweep" \in Kinds THEN SweepCases \cup ParSweepCases ELSE {}) \cup (IF "par" \in Kinds THEN ParCases ELSE {})
-            \cup (IF "res" \in Kinds THEN ResCases ELSE {}) \cup (IF "rnd" \in Kinds THEN RndCases ELSE {})
+            \cup (IF "res" \in Kinds THEN ResCases ELSE {}) \cup (IF "fld" \in Kinds THEN FldCases ELSE {}) \cup (IF "rnd" \in Kinds THEN RndCases ELSE {})
 
 Init == case \in AllCases
 Next == UNCHANGED case
@@ -107,9 +114,11 @@ MalformedRejectedInv == IsStr => MalformedRejected(case.s)
 RoundTripInv         == IsStr => RoundTrip(case.s)
 EntriesExactInv      == IsStr => EntriesExact(case.s)
 ParamsExactInv       == case.k = "par" => ParamsExact(case.s)
-ResolvedExistsInv    == case.k = "res" => ResolvedExists(case.q, case.B, CodeResolve(case.q, case.B))
-MostSpecificInv      == case.k = "res" => MostSpecific(case.q, case.B, CodeResolve(case.q, case.B))
-ResolveIsSpecInv     == case.k = "res" => CodeResolve(case.q, case.B) = SpecResolve(case.q, case.B)
+CaseB == IF case.k = "fld" THEN FldB(case.L) ELSE case.B
+IsRes == case.k \in {"res", "fld"}
+ResolvedExistsInv    == IsRes => ResolvedExists(case.q, CaseB, CodeResolve(case.q, CaseB))
+MostSpecificInv      == IsRes => MostSpecific(case.q, CaseB, CodeResolve(case.q, CaseB))
+ResolveIsSpecInv     == IsRes => CodeResolve(case.q, CaseB) = SpecResolve(case.q, CaseB)
 RenderExactInv       == case.k = "rnd" => RenderExact(case.parts, case.sib, case.hasSib, case.vars)
 
 (* --- the same cases for the driver: listed FIRST among the invariants, it prints every state --- *)
